@@ -193,6 +193,24 @@ SCENARIOS = [
     dict(prop="C17", name="D102 git mode 160000 (a submodule) is no symbolic link", tree={b"keep": b"k\n"}, argv=[b"-p1", b"-i", b"p.diff"],
          patch=b"diff --git a/sub b/sub\nnew file mode 160000\nindex 0000000..1234567\n--- /dev/null\n+++ b/sub\n@@ -0,0 +1 @@\n+Subproject commit 1234567890123456789012345678901234567890\n",
          expect=lambda r: _exp(r.after.get(b"sub", ("f",))[0] != "l", "a dangling symbolic link to 'Subproject commit ...' was created")),
+    dict(prop="C05", name="D104 -R of a removal named by an Index: line only", tree={b"keep": b"k\n"}, argv=[b"-R", b"-i", b"p.diff"],
+         patch=b"Index: f\n1,3d0\n< a\n< b\n< c\n",
+         expect=lambda r: _exp(r.exit == 0 and files(r).get(b"f") == b"a\nb\nc\n", f"-R of a removal whose only name is the Index: line does not create the file again (exit {r.exit}, tree {sorted(files(r))})")),
+    dict(prop="C12", name="D104 removal-shaped hunk with '--- /dev/null'", tree={b"g": b"one\ntwo\n"}, argv=[b"-f", b"-i", b"p.diff"], uid=65534,
+         patch=b"--- /dev/null\n+++ gone\n@@ -1,2 +0,0 @@\n-a\n-b\n" + u(b"g", [b"two"], [b"TWO"], 2),
+         expect=lambda r: _exp(r.exit == 1 and files(r).get(b"g") == b"one\nTWO\n" and b"/dev/null" not in r.stdout + r.stderr, f"/dev/null was taken for the file to patch (exit {r.exit}, {r.stderr[-80:]!r})")),
+    dict(prop="C17", name="D105 file of someone else which may be written to", tree={b"f": (L5, 0o666), b"g": b"one\ntwo\n"}, argv=[b"-i", b"p.diff"], uid=65534, root_owned=[b"f"],
+         no_tie="the model has no file ownership", patch=u(b"f", [b"l3"], [b"L3"], 3) + u(b"g", [b"two"], [b"TWO"], 2),
+         expect=lambda r: _exp(r.exit == 0 and files(r).get(b"g") == b"one\nTWO\n" and mode(r, b"f") == 0o666, f"setting the permissions a file already has ended the run (exit {r.exit}, {r.stderr[-80:]!r})")),
+    dict(prop="C16", name="D106 -o names a directory and a backup is due", tree={b"f": L5, b"out": ("d", 0o755), b"out/x": b"x\n"}, argv=[b"-b", b"-o", b"out", b"-i", b"p.diff"],
+         patch=u(b"f", [b"l3"], [b"L3"], 3),
+         expect=lambda r: _exp(r.exit == 2 and r.after.get(b"out", ("?",))[0] == "d" and b"out.orig" not in r.after and files(r).get(b"out/x") == b"x\n", f"the directory named with -o was moved to a backup (exit {r.exit}, tree {sorted(r.after)})")),
+    dict(prop="C03", name="D109 all old lines of the hunk are ignored context beyond the end (empty file)", tree={b"a": b""}, argv=[b"-f", b"-F2", b"--no-backup-if-mismatch", b"-i", b"p.diff"],
+         patch=b"--- a\n+++ a\n@@ -1,2 +1,3 @@\n+x\n a\n b\n",
+         expect=lambda r: _exp(r.exit == 0 and files(r).get(b"a") == b"x\n", f"with -F2 what is left of the hunk fits at the end of the (empty) file, it was rejected (exit {r.exit})")),
+    dict(prop="C06", name="D110 removal applied a second time with -N to the empty file --posix left", tree={b"a": b""}, argv=[b"-N", b"-i", b"p.diff"],
+         patch=b"--- a\n+++ a\n@@ -1,2 +0,0 @@\n-x\n-y\n",
+         expect=lambda r: _exp(r.exit == 1 and files(r).get(b"a") == b"", f"a patch which was skipped removed the (empty) file (exit {r.exit}, tree {sorted(files(r))})")),
     # ---- recorded in round three ----------------------------------------------------------------------------------------------------------
     dict(prop="C01", name="D86 first line of the first hunk is an empty line", tree={b"f": b"\nb\nc\n"}, argv=[b"-i", b"p.diff"],
          patch=b"--- f\n+++ f\n@@ -1,3 +1,3 @@\n\n-b\n+B\n c\n",
@@ -222,6 +240,12 @@ SCENARIOS = [
     dict(prop="C01", name="D103 context diff with an empty unchanged line given as an empty line", tag="context.suppress-blank-empty", tree={b"f": b"a\n\nb\n"}, argv=[b"-i", b"p.diff"],
          patch=b"*** f\n--- f\n***************\n*** 1,3 ****\n  a\n\n! b\n--- 1,3 ----\n  a\n\n! B\n",
          expect=lambda r: _exp(r.exit == 0 and files(r) == {b"f": b"a\n\nB\n"}, f"a context diff as 'diff -c --suppress-blank-empty' writes it is not applied (exit {r.exit}, {r.stderr[-60:]!r})")),
+    dict(prop="C05", name="D108 -R of the creation of a symbolic link", tag="reverse.symlink-creation", tree={b"real": b"data\n", b"l": ("l", b"real")}, argv=[b"-R", b"-p1", b"-i", b"p.diff"],
+         patch=b"diff --git a/l b/l\nnew file mode 120000\nindex 0000000..1234567\n--- /dev/null\n+++ b/l\n@@ -0,0 +1 @@\n+real\n\\ No newline at end of file\n",
+         expect=lambda r: _exp(r.exit == 0 and b"l" not in r.after and files(r).get(b"real") == b"data\n", f"-R of a link creation does not remove the link (exit {r.exit})")),
+    dict(prop="C15", name="D107 more git sections than files may be open", tag="git.open-files-per-section", nofile=64, dry=True, no_tie="the model has no limit on open files",
+         tree={b"f%d" % k: b"a\n" for k in range(90)}, argv=[b"-p1", b"-i", b"p.diff"],
+         patch=b"".join(b"diff --git a/f%d b/f%d\n--- a/f%d\n+++ b/f%d\n@@ -1 +1 @@\n-a\n+A\n" % (k, k, k, k) for k in range(90)), expect=lambda r: None),
     # ---- recorded as known findings in round two ---------------------------------------------------------------------------------------------------
     dict(prop="C04", name="D83 later section that ends right after its range line", tag="truncated.section-after-range-line", tree={b"f": L5, b"g": L5}, argv=[b"-i", b"p.diff"],
          patch=u(b"f", [b"l3"], [b"L3"], 3) + b"--- g\n+++ g\n@@ -1,2 +1,2 @@\n",
@@ -278,9 +302,9 @@ def run(R, prop):
         return
     jobs = []
     for s in scs:
-        jobs.append(dict(cut=R.cut, tree=_tree(s), argv=s["argv"], uid=s.get("uid", 0), **({"root_owned": [b"p.diff"]} if s.get("patch_owner_root") else {})))
+        jobs.append(dict(cut=R.cut, tree=_tree(s), argv=s["argv"], uid=s.get("uid", 0), nofile=s.get("nofile"), **({"root_owned": [b"p.diff"] + s.get("root_owned", [])} if s.get("patch_owner_root") or s.get("root_owned") else {})))
         if s.get("dry"):
-            jobs.append(dict(cut=R.cut, tree=_tree(s), argv=[b"--dry-run"] + s["argv"], uid=s.get("uid", 0)))
+            jobs.append(dict(cut=R.cut, tree=_tree(s), argv=[b"--dry-run"] + s["argv"], uid=s.get("uid", 0), nofile=s.get("nofile")))
     res = iter(drv.run_many(jobs))
     dist = {}
     for s in scs:
